@@ -44,7 +44,7 @@ def cases(rng, tier):
             cs.append({"kind": "matrix", "n": 3, "e": ("mul", g, ("dgr", g))})
     # products: dagger of a product, product with its dagger
     maxlen = 12 if tier == "quick" else 200
-    for _ in range(80 if tier == "quick" else 400):
+    for _ in range(80 if tier == "quick" else 2000):
         n = rng.randint(2, 4)
         k = rng.randint(1, maxlen if rng.random() < 0.2 else 12)
         e = rand_circuit(rng, n, k)
